@@ -607,9 +607,25 @@ def defeat_patterns(f):
     return g
 
 
-def near_miss(rng, v, scope):
+def near_miss(rng, v, scope, props=("a",)):
     other = rng.choice(scope) if scope else v
+    a = P(rng.choice(list(props)))
     return rng.choice([
+        # the pattern's operators around something that is NOT the bare variable
+        H("bind", v, U("AG", U("EF", B("and", V(v), a)))),
+        H("bind", v, U("AG", U("EF", U("not", V(v))))),
+        H("bind", v, U("AG", U("EF", a))),
+        H("bind", v, U("AG", U("EF", U("AX", V(v))))),
+        H("bind", v, U("AG", U("EF", B("or", V(v), a)))),
+        H("bind", v, U("AX", B("and", V(v), a))),
+        H("bind", v, U("AX", B("or", V(v), U("not", a)))),
+        H("bind", v, U("AX", a)),
+        H("bind", v, U("AX", U("EX", V(v)))),
+        # one operator of the pattern replaced
+        H("bind", v, U("AG", V(v))),
+        H("bind", v, U("AG", U("AF", V(v)))),
+        H("bind", v, U("EG", U("EF", V(v)))),
+        H("bind", v, U("EX", V(v))),
         H("bind", v, U("AX", V(other))),
         H("bind", v, U("AG", U("EF", V(other)))),
         H("bind", v, U("AX", V(v)), "d"),
@@ -652,7 +668,7 @@ def gen_c12(rng, probe, tier):
                 continue
             if rng.random() < 0.3:
                 scope = rng.sample(["x", "y"], rng.randint(0, 2))
-                inner = near_miss(rng, "z", scope)
+                inner = near_miss(rng, "z", scope, m["vars"])
                 f = inner
                 for v in reversed(scope):
                     # the look-alike is evaluated in states OTHER than the value of the outer variable
